@@ -240,7 +240,7 @@ static int ptr_mapped(const void* p, size_t n) {
 
 /* ------------------------------------------------------------------ state */
 #define MAXCOLS 64
-typedef struct { char* name; int type; int rep; int tlen; } coldef_t;
+typedef struct { char* name; int type; int rep; int tlen; int has_lt; carquet_logical_type_t lt; } coldef_t;
 
 typedef struct {
     /* failure plan */
@@ -325,7 +325,34 @@ static void free_schema_defs(void) {
     G.ncols = 0;
 }
 
-static void cmd_col(void) {       /* COL <namehex> <TYPE> <REQUIRED|OPTIONAL|REPEATED> <type_length> */
+/* logical=<KIND>[:a[:b]]  DECIMAL:precision:scale  INT:bits:signed  TIME|TIMESTAMP:isAdjustedToUTC:MILLIS|MICROS|NANOS
+ * STRING ENUM DATE JSON BSON UUID FLOAT16 NULL */
+static int parse_logical(const char* spec, carquet_logical_type_t* lt) {
+    char buf[96]; snprintf(buf, sizeof buf, "%s", spec);
+    char* a = strchr(buf, ':'); char* b = NULL;
+    if (a) { *a++ = 0; b = strchr(a, ':'); if (b) *b++ = 0; }
+    memset(lt, 0, sizeof *lt);
+    if (!strcmp(buf, "DECIMAL")) { lt->id = CARQUET_LOGICAL_DECIMAL; lt->params.decimal.precision = a ? atoi(a) : 0; lt->params.decimal.scale = b ? atoi(b) : 0; }
+    else if (!strcmp(buf, "INT")) { lt->id = CARQUET_LOGICAL_INTEGER; lt->params.integer.bit_width = (int8_t)(a ? atoi(a) : 0); lt->params.integer.is_signed = b && atoi(b) != 0; }
+    else if (!strcmp(buf, "TIME") || !strcmp(buf, "TIMESTAMP")) {
+        carquet_time_unit_t u = (b && !strcmp(b, "MICROS")) ? CARQUET_TIME_UNIT_MICROS : (b && !strcmp(b, "NANOS")) ? CARQUET_TIME_UNIT_NANOS : CARQUET_TIME_UNIT_MILLIS;
+        bool utc = a && atoi(a) != 0;
+        if (!strcmp(buf, "TIME")) { lt->id = CARQUET_LOGICAL_TIME; lt->params.time.unit = u; lt->params.time.is_adjusted_to_utc = utc; }
+        else { lt->id = CARQUET_LOGICAL_TIMESTAMP; lt->params.timestamp.unit = u; lt->params.timestamp.is_adjusted_to_utc = utc; }
+    }
+    else if (!strcmp(buf, "STRING")) lt->id = CARQUET_LOGICAL_STRING;
+    else if (!strcmp(buf, "ENUM")) lt->id = CARQUET_LOGICAL_ENUM;
+    else if (!strcmp(buf, "DATE")) lt->id = CARQUET_LOGICAL_DATE;
+    else if (!strcmp(buf, "JSON")) lt->id = CARQUET_LOGICAL_JSON;
+    else if (!strcmp(buf, "BSON")) lt->id = CARQUET_LOGICAL_BSON;
+    else if (!strcmp(buf, "UUID")) lt->id = CARQUET_LOGICAL_UUID;
+    else if (!strcmp(buf, "FLOAT16")) lt->id = CARQUET_LOGICAL_FLOAT16;
+    else if (!strcmp(buf, "NULL")) lt->id = CARQUET_LOGICAL_NULL;
+    else return 0;
+    return 1;
+}
+
+static void cmd_col(void) {       /* COL <namehex> <TYPE> <REQUIRED|OPTIONAL|REPEATED> <type_length> [logical=<spec>] */
     if (NT < 5 || G.ncols >= MAXCOLS) { puts("col BAD"); return; }
     size_t n; uint8_t* nm = unhex(T[1], &n);
     char* name = xmalloc(n + 1); memcpy(name, nm, n); name[n] = 0; free(nm);
@@ -334,6 +361,10 @@ static void cmd_col(void) {       /* COL <namehex> <TYPE> <REQUIRED|OPTIONAL|REP
     c->type = lookup(T[2], TYPE_NAMES, 8);
     c->rep = lookup(T[3], REP_NAMES, 3);
     c->tlen = atoi(T[4]);
+    c->has_lt = 0;
+    if (NT >= 6 && !strncmp(T[5], "logical=", 8)) {
+        if (parse_logical(T[5] + 8, &c->lt)) c->has_lt = 1; else printf("col BAD logical %s\n", T[5] + 8);
+    }
 }
 
 static void cmd_opt(void) {       /* OPT key=value ...   (NULL = pass a NULL options pointer) */
@@ -376,7 +407,8 @@ static int build_schema(void) {
     for (int i = 0; i < G.ncols; i++) {
         ARM();
         carquet_status_t st = carquet_schema_add_column(G.schema, G.cols[i].name, (carquet_physical_type_t)G.cols[i].type,
-                                                        NULL, (carquet_field_repetition_t)G.cols[i].rep, G.cols[i].tlen);
+                                                        G.cols[i].has_lt ? &G.cols[i].lt : NULL,
+                                                        (carquet_field_repetition_t)G.cols[i].rep, G.cols[i].tlen);
         DISARM();
         if (st != CARQUET_OK) { printf("schema_add_column %d ERR %d %s\n", i, (int)st, stname(st)); return 0; }
     }
